@@ -20,7 +20,7 @@ FIX_LATEST = True
 
 MON_FORMULAS = ["OnePerContent.Duplicate", "OnePerContent.Name", "OnePerContent.Lost", "Faithful.Spec", "Faithful.Edited",
                 "Monotone", "Monotone.ListedUnowned", "CurrentHighest.Missing", "CurrentHighest",
-                "CurrentHighest.ListedUnowned", "CurrentHighest.AfterStrip", "Manual", "Automatic"]
+                "CurrentHighest.ListedUnowned", "CurrentHighest.AfterStrip", "CurrentHighest.Controlled", "Manual", "Automatic"]
 
 
 def scenarios_from(ctx, mc, prefix, n):
